@@ -65,6 +65,7 @@ def handleAssign (inf : VInfo) (body : Sx) (vecs : List (List VVal)) : String :=
           let cx := ctxOf inf
           match genMV cx inf.vvty e with
           | .error (.panic site) => "panic " ++ RsslVerif.Driver.C02Sem.panicCategory site
+          | .error (.diag e) => "diagnostic GenerateError(" ++ e ++ ")"
           | .error (.unsupported _) => "unsupported"
           | .ok a =>
             let env := inf.env
@@ -99,6 +100,7 @@ def handleVex (vectors ctx ir : String) : String :=
       let cx := ctxOf inf
       match genMV cx inf.vvty e with
       | .error (.panic site) => "panic " ++ RsslVerif.Driver.C02Sem.panicCategory site
+      | .error (.diag e) => "diagnostic GenerateError(" ++ e ++ ")"
       | .error (.unsupported _) => "unsupported"
       | .ok a =>
         let env := inf.env
